@@ -29,7 +29,7 @@ func main() {
 		return
 	}
 	ev.Main("C18", "exploration",
-		"one in-process perkeepd (serverinit.Load of a high-level config + InstallHandlers, real TCP listener) per configuration {memory,localdisk,diskpacked,blobpacked}x{memory,leveldb,kv,sqlite} and history; a history = every (request kind, parameter class) pair once plus seeded random picks up to the tier's request count, over <=45 blobs (0 B .. 64 KiB, one 1 MiB, a real chunked file; sha224/sha1/sha256 refs), issued through pkg/client (Upload, ReceiveBlob, StatBlobs, Fetch, EnumerateBlobs[Opts]) and raw net/http (PUT, multipart 1..40 parts, stat GET/POST with 1..1001 refs, GET/HEAD with single Range forms, enumerate with limit/after/maxwaitsec, continuation chains), each answer compared with a reference map, then a full audit; plus one boundary-size history per configuration: blobs of MaxBlobSize-1, MaxBlobSize and MaxBlobSize+1 bytes (16 MiB, streamed) through PUT with Content-Length, chunked PUT, multipart with small parts before and after the big one, client.Upload and client.ReceiveBlob, legal sizes acknowledged/stat-able/fetched byte for byte/enumerated once, the over-limit size refused and invisible afterwards; distinct = (configuration, hash of the request log); a history counts only if it issued every mandatory class",
+		"one in-process perkeepd (serverinit.Load of a high-level config + InstallHandlers, real TCP listener) per configuration {memory,localdisk,diskpacked,blobpacked}x{memory,leveldb,kv,sqlite} and history; a history = every (request kind, parameter class) pair once plus seeded random picks up to the tier's request count, over <=45 blobs (0 B .. 64 KiB, one 1 MiB, a real chunked file; sha224/sha1/sha256 refs), issued through pkg/client (Upload, ReceiveBlob, StatBlobs, Fetch, EnumerateBlobs[Opts]) and raw net/http (PUT, multipart 1..40 parts, stat GET/POST with 1..1001 refs, GET/HEAD with single Range forms, enumerate with limit/after/maxwaitsec, continuation chains), each answer compared with a reference map, then a full audit; plus one boundary-size history per configuration: blobs of MaxBlobSize-1, MaxBlobSize and MaxBlobSize+1 bytes (16 MiB, streamed) through PUT with Content-Length, chunked PUT, multipart with small parts before and after the big one, client.Upload and client.ReceiveBlob, legal sizes acknowledged/stat-able/fetched byte for byte/enumerated once, the over-limit size refused and invisible afterwards; plus one bulk history per configuration: the store is loaded through 40-part multiparts to exactly 100, exactly 1000 and then >= 1100 tiny blobs and at each size listed completely through raw chains (no limit, 100, 1000, over-max, maxwaitsec=1 first), client.EnumerateBlobs (limits 1000, 1001.., 100000, After set), client.EnumerateBlobsOpts (MaxWait 1s/2.5s/with Limit, After, After+Limit, After+MaxWait), client.SimpleEnumerateBlobs, stat batches of 1000 present refs; every history also sends the out-of-domain parameter classes (limit 0/negative/non-numeric/huge, odd maxwaitsec, stat with repeated refs, a numbering gap, no camliversion, a malformed ref, no ref), one long-poll stat overlapping the upload it waits for, and repeats the complete enumerations and the stat of everything at the /bs/ root and (once a stat there reports every blob) at the /index/ root; distinct = (configuration, hash of the request log); a history counts only if it issued every mandatory class",
 		run)
 }
 
@@ -57,6 +57,7 @@ type job struct {
 	id       string
 	nreq     int
 	boundary bool // the boundary-size history of the configuration (boundary.go)
+	bulk     bool // the >= 1100-blob history of the configuration (bulk.go)
 }
 
 func run(r *ev.Run) {
@@ -74,7 +75,7 @@ func run(r *ev.Run) {
 
 	cfgs := tierConfigs(r)
 	nh := r.Pick(6, 24)
-	nreq := r.Pick(150, 300)
+	nreq := r.Pick(180, 330)
 	r.Assume("blob-upload.md: 'A single blob can be at most 16 MB' = constants.MaxBlobSize (16 MiB), the limit blobserver.Receive applies to direct storage access: a blob of exactly that size is legal on every upload path, one byte more is refused (any non-2xx answer, a closed connection, or an error of the client library) and must leave no trace; of a multipart request with an over-limit part only the parts before it are decided")
 	var jobs []job
 	// the boundary-size histories first: they are the longest
@@ -82,6 +83,13 @@ func run(r *ev.Run) {
 		id := fmt.Sprintf("%s#boundary;", c)
 		if r.Only(id) {
 			jobs = append(jobs, job{cfg: c, id: id, boundary: true})
+		}
+	}
+	r.Assume("the page sizes 100 (server, request without limit) and 1000 (pkg/client) only decide at which store sizes a bulk history stops to enumerate; no verdict depends on them: a page may be shorter than the limit as long as continueAfter says so (blob-enumerate.md)")
+	for _, c := range cfgs {
+		id := fmt.Sprintf("%s#bulk;", c)
+		if r.Only(id) {
+			jobs = append(jobs, job{cfg: c, id: id, bulk: true})
 		}
 	}
 	for _, c := range cfgs {
@@ -132,8 +140,12 @@ func run(r *ev.Run) {
 			}
 		}
 		r.Require("upload_forms", forms...)
+		r.Require("bulk_configs", names...)
+		r.Require("events", bulkEvents...)
+		r.Require("events", "bs-root-audited", "index-root-audited")
+		r.Require("index_root_kinds", indexes...)
 	}
-	if !strings.Contains(os.Getenv("VERIF_ONLY"), "#boundary;") { // (a replay of one boundary history issues its own classes only)
+	if only := os.Getenv("VERIF_ONLY"); !strings.Contains(only, "#boundary;") && !strings.Contains(only, "#bulk;") { // (a replay of one boundary history issues its own classes only)
 		r.Require("endpoints", "upload", "stat", "get", "enumerate")
 		r.Require("client_kinds", "pkg/client", "raw")
 		r.Require("client_funcs", "Upload", "ReceiveBlob", "StatBlobs", "Fetch", "EnumerateBlobs", "EnumerateBlobsOpts", "SimpleEnumerateBlobs")
@@ -142,6 +154,9 @@ func run(r *ev.Run) {
 		r.Require("stat_batch", "GET.1", "GET.37", "POST.1", "POST.37", "POST.999", "POST.1000", "POST.1001")
 		r.Require("enum_limit", "absent", "1", "2", "100", "over-max")
 		r.Require("maxwaitsec", "absent", "0", "1", "client-1")
+		r.Require("longpoll_wake", "listed")
+		r.Require("enum_param_classes", weirdPageClasses...)
+		r.Require("stat_param_classes", weirdStatClasses...)
 	}
 	r.Extra("configurations", names)
 	r.Extra("histories_per_configuration", nh)
@@ -160,7 +175,7 @@ func runJob(r *ev.Run, root string, j job) {
 		"C18_CFG=" + j.cfg.String(),
 		fmt.Sprintf("C18_HIST=%d", j.hn),
 		fmt.Sprintf("C18_NREQ=%d", j.nreq),
-		"C18_KIND=" + map[bool]string{false: "history", true: "boundary"}[j.boundary],
+		"C18_KIND=" + jobKind(j),
 		"C18_DIR=" + dir,
 		"C18_CASE=" + j.id,
 		fmt.Sprintf("VERIF_SEED=%d", r.Seed),
@@ -273,6 +288,25 @@ func runJob(r *ev.Run, root string, j job) {
 		r.Extra("slowest_boundary_history_s", maxb(time.Since(start).Seconds()))
 		return
 	}
+	if j.bulk {
+		r.Count("bulk_histories", 1)
+		var missing []string
+		for _, c := range bulkClasses() {
+			if !seen[c] {
+				missing = append(missing, c)
+			}
+		}
+		if len(missing) == 0 {
+			r.Note("bulk_configs", j.cfg.String())
+			if distinctKey != "" {
+				r.Distinct(distinctKey)
+			}
+		} else if !aborted {
+			r.Inconclusive(fmt.Sprintf("%s: bulk history did not issue %v", j.id, missing))
+		}
+		r.Extra("slowest_bulk_history_s", maxk(time.Since(start).Seconds()))
+		return
+	}
 	r.Count("histories", 1)
 	r.Note("configs", j.cfg.String())
 	r.Note("storage_kinds", j.cfg.Storage)
@@ -304,6 +338,27 @@ func maxb(v float64) float64 {
 	return float64(int(slowestB*10)) / 10
 }
 
+var slowestK float64
+
+func maxk(v float64) float64 {
+	slowMu.Lock()
+	defer slowMu.Unlock()
+	if v > slowestK {
+		slowestK = v
+	}
+	return float64(int(slowestK*10)) / 10
+}
+
+func jobKind(j job) string {
+	switch {
+	case j.boundary:
+		return "boundary"
+	case j.bulk:
+		return "bulk"
+	}
+	return "history"
+}
+
 func maxf(_ *ev.Run, v float64) float64 {
 	slowMu.Lock()
 	defer slowMu.Unlock()
@@ -319,7 +374,7 @@ var requiredClasses = []string{
 	"upload.raw.PUT", "upload.raw.multipart.1", "upload.raw.multipart.2", "upload.raw.multipart.5", "upload.raw.multipart.17", "upload.raw.multipart.40",
 	"stat.pkg/client.StatBlobs.1", "stat.pkg/client.StatBlobs.7", "stat.pkg/client.StatBlobs.all",
 	"stat.raw.GET.1", "stat.raw.GET.37", "stat.raw.POST.1", "stat.raw.POST.37", "stat.raw.POST.999", "stat.raw.POST.1000", "stat.raw.POST.1001",
-	"stat.raw.POST.wait0-present", "stat.raw.POST.wait1-present", "stat.raw.POST.wait1-absent",
+	"stat.raw.POST.wait0-present", "stat.raw.POST.wait1-present", "stat.raw.POST.wait1-absent", "stat.raw.POST.wake",
 	"get.pkg/client.Fetch.present", "get.pkg/client.Fetch.absent",
 	"get.raw.GET.present", "get.raw.GET.absent", "get.raw.HEAD.present", "get.raw.HEAD.absent",
 	"get.raw.GET.range.first-last", "get.raw.GET.range.single-byte", "get.raw.GET.range.open-ended", "get.raw.GET.range.suffix",
@@ -332,9 +387,20 @@ var requiredClasses = []string{
 	"enumerate.raw.chain.mws0", "enumerate.raw.chain.mws1",
 }
 
+func allRequiredClasses() []string {
+	out := append([]string{}, requiredClasses...)
+	for _, c := range weirdPageClasses {
+		out = append(out, "enumerate.raw.weird."+c)
+	}
+	for _, c := range weirdStatClasses {
+		out = append(out, "stat.raw.weird."+c)
+	}
+	return out
+}
+
 func missingClasses(seen map[string]bool) []string {
 	var m []string
-	for _, c := range requiredClasses {
+	for _, c := range allRequiredClasses() {
 		if !seen[c] {
 			m = append(m, c)
 		}
